@@ -79,7 +79,7 @@ extern long mpt_buffer_set(MPT_STRUCT(buffer) *buf, const MPT_STRUCT(type_traits
 	/* terminate overlapping target data */
 	if (fini) {
 		size_t off;
-		for (off = pos; off < used; off += elem_size) {
+		for (off = pos; off < used && off < end; off += elem_size) {
 			fini(ptr + off);
 		}
 	}
@@ -122,9 +122,8 @@ extern long mpt_buffer_set(MPT_STRUCT(buffer) *buf, const MPT_STRUCT(type_traits
 				/* invalidate remaining data as result of fatal error */
 				buf->_used = pos;
 				if (fini) {
-					while (pos < used) {
+					for (pos = end; pos < used; pos += elem_size) {
 						fini(ptr + pos);
-						pos += elem_size;
 					}
 				}
 				return count;
